@@ -45,6 +45,9 @@ def conventional_plus(r, idx):
     lk.field("name", 1, "string", required=True).field("region", 2, "string", required=True).field("limit", 3, "int32", required=True)
     lk.field("view", 4, "string")
     lkr = main.message("LookupThingResponse"); lkr.field("found", 1, "bool")
+    # every scalar shape the emitted response assertions distinguish: repeated bool / double / float / enum-free ints / bytes / strings
+    lkr.field("bits", 10, "bool", repeated=True).field("weights", 11, "double", repeated=True).field("ratio", 12, "float")
+    lkr.field("ratios", 13, "float", repeated=True).field("counts", 14, "int64", repeated=True).field("blob", 15, "bytes").field("notes", 16, "string", repeated=True)
     # a body message reaching a repeated google.protobuf.Any before a singular one (google.rpc.Status.details), a Struct, a FieldMask
     main.dep("google/rpc/status.proto"); main.dep("google/protobuf/struct.proto"); main.dep("google/protobuf/field_mask.proto")
     lkr.field("last_status", 2, ".google.rpc.Status").field("labels", 3, ".google.protobuf.Struct").field("mask", 4, ".google.protobuf.FieldMask")
